@@ -2,6 +2,7 @@ package drivers
 
 import (
 	"fmt"
+	"math/rand"
 
 	"verif/harness/machine"
 	"verif/harness/trace"
@@ -86,6 +87,51 @@ func genRun(j genJob) *trace.Scenario {
 	return sc
 }
 
+// sweepRun: channel 1 with the frequency sweep running; every duty step is logged with the frequency in effect right after it.
+func sweepRun(id string, seed int64) *trace.Scenario {
+	rng := rand.New(rand.NewSource(seed))
+	m := machine.New(intROM, machine.Options{NoCPU: true})
+	f := rng.Intn(2048)
+	if rng.Intn(2) == 0 {
+		f = 1200 + rng.Intn(840)
+	}
+	nr10 := (1+rng.Intn(7))<<4 | rng.Intn(2)<<3 | (1 + rng.Intn(7))
+	cycles := 60000
+	sc := &trace.Scenario{ID: id}
+	perr := machine.Try(func() {
+		m.M.Write(0xff26, 0x00)
+		m.M.Write(0xff26, 0x80)
+		for i := 0; i < rng.Intn(5000); i++ {
+			m.Hardware()
+		}
+		m.M.Write(0xff10, uint8(nr10))
+		m.M.Write(0xff12, 0xf0)
+		m.M.Write(0xff13, uint8(f&0xff))
+		m.M.Write(0xff14, uint8(0x80|f>>8))
+		g := m.A.VerifGen()
+		sc.Reset = []any{"sqsweep", f, nr10, 0, int(g.Duty1), cycles, "sq1sweep", seed}
+		prev := int(g.Duty1)
+		for c := 1; c <= cycles; c++ {
+			m.Hardware()
+			g = m.A.VerifGen()
+			if int(g.Duty1) != prev {
+				prev = int(g.Duty1)
+				sc.Ev = append(sc.Ev, []any{c, prev, int(g.Freq1)})
+			}
+		}
+	})
+	if perr != "" {
+		if sc.Reset == nil {
+			sc.Reset = []any{"sqsweep", f, nr10, 0, 0, cycles, "sq1sweep", seed}
+		}
+		sc.Ev = append(sc.Ev, []any{"panic", perr})
+	}
+	if sc.Ev == nil {
+		sc.Ev = [][]any{}
+	}
+	return sc
+}
+
 func genJobs(c *Ctx) []genJob {
 	rng := c.Rand(2101)
 	var jobs []genJob
@@ -148,12 +194,25 @@ func apuGenSamples(c *Ctx, w *trace.Writer) {
 		for _, s := range res {
 			w.Put(s)
 		}
+		// channel 1 with the sweep unit changing the frequency while it plays
+		rng := c.Rand(2102)
+		ns := 12
+		if c.Thorough() {
+			ns = 200
+		}
+		for i := 0; i < ns; i++ {
+			w.Put(sweepRun(fmt.Sprintf("gen-sweep-%d", i), rng.Int63n(1<<40)))
+		}
 	}
 	apuGenStream(c, w)
 }
 
 func apuRerunSamples(c *Ctx, w *trace.Writer, s *trace.Scenario) {
 	r, ok := s.Reset.([]any)
+	if ok && len(r) == 8 && trace.Str(r[0]) == "sqsweep" {
+		w.Put(sweepRun(s.ID, int64(trace.Int(r[7]))))
+		return
+	}
 	if ok && len(r) == 7 {
 		w.Put(genRun(genJob{id: s.ID, kind: trace.Str(r[6]), a: trace.Int(r[1]), b: trace.Int(r[2]), narrow: trace.Int(r[3]), cycles: trace.Int(r[5])}))
 		return
